@@ -33,7 +33,12 @@ contract('Sink.__init__@late', props=['C20'], for_cls=['Sink'], invariants=False
 contract('Source.__init__@late', props=['C20'], for_cls=['Source'], invariants=False, fresh_self=True,
          args={'name': 'str', 'part_generator': 'ref:PartGenerator', 'cycle_time': 'real', 'starting_parts': 'ext'},
          requires=dict(LATE, parameters='cycle_time >= 0'),
-         ensures=dict(POST, nothing_supplied_yet='self._produced_parts == 0'))
+         ensures=dict(POST, nothing_supplied_yet='self._produced_parts == 0',
+                      first_part_is_due_one_cycle_after_creation=
+                      'implies(cycle_time > 0, self._output is None and trace_kind(trace_len() - 1) == fn_id("schedule_event") and '
+                      '  trace_real(trace_len() - 1, 0) == System._instance._env._now + cycle_time and '
+                      '  trace_fn(trace_len() - 1) == method(self, "_finish_cycle")) and '
+                      'implies(cycle_time == 0, self._output is not None)'))
 contract('PartBatcher.__init__@late', props=['C20'], for_cls=['PartBatcher'], invariants=False, fresh_self=True,
          args={'name': 'str', 'upstream': 'list[ref:PartFlowController]?', 'value': 'real', 'output_batch_size': 'int?'},
          requires=dict(LATE, parameters='upstream is None and (output_batch_size is None or output_batch_size > 0)'),
